@@ -476,6 +476,8 @@ def rule_b(F):
                                            "empty stack underflows the height" % (sname, fname, k, k)))
                     elif val.base[0] == "sat":
                         res.append(ok("C14.B", key, loc, "height is lowered with saturating_sub"))
+                    elif val.base[0] == "min" and (("h",), 0) in val.base[1:]:
+                        res.append(ok("C14.B", key, loc, "height set to min(height, ..): the store can only lower it"))
                     elif val.base == ("h_minus_min",):
                         res.append(ok("C14.B", key, loc, "height is lowered by min(height, n)"))
                     elif val.base == ("const",) and val.off == 0:
@@ -490,7 +492,27 @@ def rule_b(F):
                             kind, payload = du.trace_back(pl["l"])
                             if kind == "arg" and 1 <= payload <= f.mir["arg_count"]:
                                 param = payload
+                        lowering = False
                         if param is not None:
+                            # the store sits under a comparison of the parameter with the height that only admits p <= h
+                            import itertools
+                            ag = aff_guards(f, du, bi, cfgd)
+                            pk = "p%d" % param
+                            if any(pk in a or pk in b for _op, a, b, _t in ag):
+                                lowering = True
+                                for L in range(0, 6):
+                                    for h in range(0, L + 1):
+                                        for pv in range(0, 8):
+                                            env = {"h": h, "L": L, pk: pv}
+                                            try:
+                                                adm = all(CMP[op](aff_eval(a, env), aff_eval(b, env)) == truth for op, a, b, truth in ag)
+                                            except KeyError:
+                                                adm = True
+                                            if adm and pv > h:
+                                                lowering = False
+                        if lowering:
+                            res.append(ok("C14.B", key, loc, "height set to a parameter only where the guards imply parameter <= height: the store can only lower it"))
+                        elif param is not None:
                             res.extend(check_set_height_callers(F, f, param, key, loc, sname, fname))
                         else:
                             res.append(undecided("C14.B", key, loc, "stored height expression not recognised: %r" % val))
@@ -670,7 +692,73 @@ def rule_f(F):
     return res
 
 
+def rule_t(F):
+    """C14.T: truncation. clear_until(index) with index <= height leaves exactly `index` values and reports the value that
+    was on top before (last()); decided by evaluating the body for every small (height, capacity, index) with
+    index <= height. index > height is outside the property and not judged."""
+    from cao import mirexec as mx
+    res = []
+    f = F.fn("collections::value_stack::ValueStack::clear_until")
+    if not f.mir or f.mir["arg_count"] != 2:
+        raise AnchorMissing("MIR of ValueStack::clear_until(&mut self, index)")
+    key = "C14/T/ValueStack::clear_until/truncates-and-reports-the-old-top"
+
+    def calls(names, argv, st):
+        last = names[0].rsplit("::", 1)[-1] if names else "?"
+        if names and names[0].endswith("ValueStack::last") and argv and argv[0] == ("self",):
+            h = st.fields["count"]
+            return ("top", h) if h > 0 else ("nil",)
+        if last == "len" and argv and argv[0] == ("ref", ("data",)):
+            return st.fields["__L"]
+        if last in ("min", "max") and len(argv) == 2 and all(isinstance(a, int) for a in argv):
+            return min(argv) if last == "min" else max(argv)
+        if last == "saturating_sub" and len(argv) == 2 and all(isinstance(a, int) for a in argv):
+            return max(argv[0] - argv[1], 0)
+        raise mx.Unknown("call %s" % (names[0] if names else "?"))
+
+    def is_nil(v):
+        return v == ("nil",) or (isinstance(v, tuple) and v[:1] == ("agg",) and v[2] == "Nil")
+
+    cases = 0
+    for L in range(1, 6):
+        for h in range(0, L + 1):
+            for idx in range(0, h + 1):
+                try:
+                    o = mx.run(f, {1: ("self",), 2: idx}, {"count": h, "data": ("data",), "__L": L}, calls)
+                except mx.Unknown as e:
+                    return [undecided("C14.T", key, f.loc(), "clear_until could not be evaluated over the small domain: %s" % e)]
+                cases += 1
+                want = ("top", h) if h > 0 else ("nil",)
+                got_h = o.fields["count"]
+                if o.panicked:
+                    return [bad("C14.T", key, f.loc(), "ValueStack::clear_until(%d) panics (%s) on a stack of height %d, capacity %d: truncating "
+                                "to a height at or below the current one must succeed" % (idx, o.panicked, h, L))]
+                if got_h != idx:
+                    return [bad("C14.T", key, f.loc(), "ValueStack::clear_until(%d) on a stack of height %d (capacity %d) leaves height %s: "
+                                "truncating to a height at or below the current one must leave exactly that many values" % (idx, h, L, got_h))]
+                if not (o.ret == want or (is_nil(o.ret) and want == ("nil",))):
+                    return [bad("C14.T", key, f.loc(), "ValueStack::clear_until(%d) on a stack of height %d (capacity %d) returns %s where "
+                                "the value on top before the truncation (last()) is due: the caller (Return) loses its result"
+                                % (idx, h, L, "nil" if is_nil(o.ret) else o.ret))]
+    # an index above the height: a truncation never raises the height (the slots above it hold stale values, and beyond
+    # the capacity there is no slot at all)
+    for L in range(1, 6):
+        for h in range(0, L + 1):
+            for idx in range(h + 1, L + 3):
+                try:
+                    o = mx.run(f, {1: ("self",), 2: idx}, {"count": h, "data": ("data",), "__L": L}, calls)
+                except mx.Unknown as e:
+                    return [undecided("C14.T", key, f.loc(), "clear_until could not be evaluated over the small domain: %s" % e)]
+                cases += 1
+                if not o.panicked and isinstance(o.fields["count"], int) and o.fields["count"] > h:
+                    return [bad("C14.T", key, f.loc(), "ValueStack::clear_until(%d) on a stack of height %d (capacity %d) raises the height to %d: "
+                                "the stack then reports values it never stored (stale slots) and, past the capacity, more values than "
+                                "it has slots - the next pop indexes out of bounds" % (idx, h, L, o.fields["count"]))]
+    return [ok("C14.T", key, f.loc(), "evaluated for %d (height, capacity, index) cases: height becomes index, result is the old top" % cases)]
+
+
 RULES = [
+    Rule("C14.T", rule_t, 1, "clear_until truncates to the given height and reports the old top (all small cases)"),
     Rule("C14.N", rule_n, 4, "elements handed out are below the height (reads at or beyond it are nil)"),
     Rule("C14.B", rule_b, 12, "guarded height changes and unchecked accesses of both stacks"),
     Rule("C14.F", rule_f, 4, "a failing push leaves the contents unchanged and happens only when the stack is full"),
